@@ -93,6 +93,10 @@ def same_tensor(a, b, exact=True, raw=False):
         return f'charge {a.n} vs {b.n}'
     if a.isdiag != b.isdiag or a.ndim != b.ndim:
         return f'isdiag/ndim {a.isdiag, a.ndim} vs {b.isdiag, b.ndim}'
+    if len(a.get_blocks_charge()) == 0 and len(b.get_blocks_charge()) == 0:
+        # entirely empty tensors: yastn derives legs from stored blocks, so the sectors of an empty tensor are not an observable (a hard-fused
+        # leg remembers its sub-sectors in the fusion record, a meta-fused one does not); signature and charge were compared above
+        return None if tuple(a.s) == tuple(b.s) else f'signature {a.s} vs {b.s}'
     if a.get_legs() != b.get_legs():
         return f'legs {a.get_legs()} vs {b.get_legs()}'
     A, B = a.to_numpy(), b.to_numpy()
